@@ -27,6 +27,7 @@ def sh(cmd, cwd=None, env=None, timeout=1200):
 
 
 def confirm(d: str) -> dict:
+    d = os.path.abspath(d)
     patch, demo = os.path.join(d, "patch.diff"), os.path.join(d, "demo.py")
     wt = tempfile.mkdtemp(prefix="seedwt_", dir="/tmp")
     os.rmdir(wt)
